@@ -67,6 +67,7 @@ def run(sid, tier="quick", props=None):
     finally:
         sh("git -C /repo checkout -- .")
         assert sh("git -C /repo status --porcelain").stdout.strip() == ""
+        sh(["/venv/bin/python", str(V / "harness/extract.py")])      # Generated/*.lean back to the unchanged tree
     meta.setdefault("detected_by", {}).update({p: {"tier": tier, "exit": v["exit"], "verdict": [l for l in v["lines"] if l.startswith("VIOLATION")]} for p, v in res.items()})
     (d / "meta.json").write_text(json.dumps(meta, indent=1) + "\n")
     return 0
